@@ -19,6 +19,8 @@ FAULTS = [
     # mutation operands that are not identifiers (each kind the error message names), and expected-token lists of every length
     "cut roll X", "join X at 1", "cast \"s\"", "cut F taking 1, 2", "shatter roll roll X", "unite 5 with 2",
     "X 5", "X 'n' 5", "X & Y", "the heart 5", "Tom Sawyer 5", "it 5", "X at 1 5", "turn X sideways", "F takes X 'n'", "F taking 1 'n'",
+    "break him down", "break he down", "break them down", "break IT up", "take him to the top", "take it to a top", "take it to my top", "take they to the top",
+    "take it to the", "break it down down", "take it to the top top", "continue it", "break it him",
     "say 1 is as", "say 1 is as 5 as 2", "say 1 is bigger", "say 1 is bigger 2", "knock X down up", "build X up down",
 ]
 
@@ -61,6 +63,11 @@ def run(chk):
             cases.append({"src": "\n".join(new), "line": k + 1, "fault": fault})
     plines = [f"(exec f{i} parse {C.hx(c['src'])})" for i, c in enumerate(cases)]
     r, _ = suite.compare(chk, plines, "faults", project=lambda x: x, suite_name="PARSE-faults")
+    # where the error is reported under every layout: inserted lines of every kind, line-ending conventions, truncation, joined
+    # statements (gen_layout), and adjacent-token pairs in statement contexts (gen_pairs); verdict, line and message: model = implementation
+    from . import gen_layout, gen_pairs
+    ltexts = [t for (_, t) in gen_layout.variants(quick, rng)] + gen_pairs.pair_texts(rng, limit=4000 if quick else 30000)
+    suite.compare(chk, [f"(exec y{i} parse {C.hx(t)})" for i, t in enumerate(ltexts)], "layouts", project=lambda x: x, suite_name="PARSE-layouts")
     bad = 0
     for i, c in enumerate(cases):
         for side in ("debug", "release"):
